@@ -397,13 +397,25 @@ func init() {
 		if inner == nil {
 			return nil
 		}
-		any, err := intertxv1.PackTxMsgAny(inner)
-		if err != nil {
-			return nil
-		}
 		owner := a.Addr
 		if mode == ModeHostile && g.R.Chance(0.5) {
 			owner = g.otherUser(a).Addr
+		}
+		if g.R.Chance(0.12) {
+			// the submitted message is itself a SubmitTx (for the same owner, another owner, another
+			// connection): it is a registered sdk.Msg like any other and must travel unmodified
+			if innerAny, err := intertxv1.PackTxMsgAny(inner); err == nil {
+				o2 := owner
+				if g.R.Chance(0.3) {
+					o2 = g.otherUser(a).Addr
+				}
+				inner = &intertxv1.MsgSubmitTx{Owner: o2, ConnectionId: Pick(g.R, append([]string{"connection-7"}, g.W.ICA.Cfg.Connections...)), Msg: innerAny}
+				g.W.Probe("ica_nested_submit_tx")
+			}
+		}
+		any, err := intertxv1.PackTxMsgAny(inner)
+		if err != nil {
+			return nil
 		}
 		return &intertxv1.MsgSubmitTx{Owner: owner, ConnectionId: conn, Msg: any}
 	})
